@@ -169,4 +169,17 @@ func (*compiler).VisitTernaryExpr [C02]
   ensures c.latestReturnType == descr(c, 4)
   ensures ir.irty(c.latestReturn) == 4
   replay - replay_templates/c02_ternary.sh - : op = e.Operator ; l = tyClassOf(e.Lhs) ; m = tyClassOf(e.Mid) ; r = tyClassOf(e.Rhs)
+
+// ================= C07: a faulty module is never handed to the code generator =================
+func newCompiler
+  trusted
+  freshresult
+  modifies nothing
+  ensures result != nil && result.ddpModule == module
+
+func Compile [C07]
+  callsite compile requires arg0.ddpModule != nil && arg0.ddpModule.Ast != nil && !arg0.ddpModule.Ast.Faulty
+
+func compileWithImportsRec [C07]
+  callsite compile requires arg0.ddpModule != nil && arg0.ddpModule.Ast != nil && !arg0.ddpModule.Ast.Faulty
 @*/
